@@ -69,7 +69,9 @@ def gen_plan(seed, prop, faults, nested=False):
         'nest_rate': rng.choice([0.2, 0.4]) if nested else 0.0,
         'fault_rate': rng.choice([0.1, 0.25]) if faults else 0.0,
         'nstruct': rng.randint(2, 4) if prop == 'C19' else rng.randint(3, 5),
-        'nops': rng.randint(10, 40),
+        'nops': rng.choice([rng.randint(10, 40), rng.randint(10, 40),
+                            rng.randint(10, 40), rng.randint(40, 70)]),
+        'nmax': rng.choice([4, 4, 4, 6]),
         'natoms': rng.choice([2, 3]),
         'weird_labels': rng.random() < (0.7 if prop == 'C19' else 0.35),
         'weird_atoms': prop == 'C19' and rng.random() < 0.5,
@@ -130,7 +132,7 @@ def gen_plan(seed, prop, faults, nested=False):
     # structures ---------------------------------------------------------
     structs = []
     for k in range(cfg['nstruct']):
-        nmax = 4
+        nmax = cfg['nmax']
         shape = None
         if cfg['fair'] and rng.random() < 0.5:
             shape = 'fairfriendly'
